@@ -742,7 +742,8 @@ class TransverselyIsotropic(_Elastic):
         I = Project_Kelvin(TensorProd(np.eye(3), np.eye(3), True))
         E5 = I - E1 - E2 - E4
 
-        ci = np.array([c1, c2, c3, c4, c5])
+        # heterogeneous parameters: some coefficients are fields, others scalars
+        ci = np.array(np.broadcast_arrays(c1, c2, c3, c4, c5))
         Ei = np.array([E1, E2, E3, E4, E5])
 
         if not self.isHeterogeneous:
@@ -1079,8 +1080,9 @@ class Orthotropic(_Elastic):
         E13 = Project_Kelvin(tensor_prods(a, a, c, c) + tensor_prods(c, c, a, a))
         E12 = Project_Kelvin(tensor_prods(a, a, b, b) + tensor_prods(b, b, a, a))
 
+        # heterogeneous parameters: some coefficients are fields, others scalars
         ci = np.array(
-            [
+            np.broadcast_arrays(
                 self._c11,
                 self._c22,
                 self._c33,
@@ -1090,7 +1092,7 @@ class Orthotropic(_Elastic):
                 self._c23,
                 self._c13,
                 self._c12,
-            ]
+            )
         )
         Ei = np.array([E11, E22, E33, E44, E55, E66, E23, E13, E12])
 
